@@ -204,7 +204,7 @@ func largeInputs(r *vlib.Run, p *pool) {
 			hi++
 		}
 		sets := largeSettings(chosen[lo].Forced)
-		pl := plan{BuilderPerChild: 1, OtherPerChild: len(sets)}
+		pl := plan{BuilderPerChild: 1, BuilderGCOff: true, OtherPerChild: len(sets)}
 		if chosen[lo].Forced {
 			pl.NCPU = chosen[lo].NCPU
 		}
